@@ -76,6 +76,35 @@ Theorem c08_reordering_commutable_ops :
 Proof. exact apply_ops_reorder. Qed.
 Print Assumptions c08_reordering_commutable_ops.
 
+(* which shifts the enumeration uses.  [boundary_shifts nb t d] = the amounts k of blank lines at the top that put a row
+   of d (any row; with nb = true any row that is not blank) on row t.  Covering: for EVERY such row r = i + 1 <= t one
+   of the selected shifts puts r on row t and the row after it on row t + 1 (rows 1-based), i.e. the pair crosses
+   the boundary where row numbers get one more digit for t = 9, 99, 999 -- and so does every pair (r, r') with r < r'. *)
+Theorem c08_boundary_shifts_cover :
+  forall (nb : bool) (t : nat) (x : ldoc) (i : nat) (l : str),
+  nth_error (l_lines x) i = Some l -> (nb = true -> blank_line l = false) -> S i <= t ->
+  exists k, In k (boundary_shifts nb t (l_lines x)) /\
+            S (ops_index [OBlankTop k] x i) = t /\ S (ops_index [OBlankTop k] x (S i)) = S t.
+Proof. exact boundary_shifts_cover_lemma. Qed.
+Print Assumptions c08_boundary_shifts_cover.
+
+(* the selection holds nothing else: each selected shift puts some (selected) row on row t *)
+Theorem c08_boundary_shifts_only :
+  forall (nb : bool) (t : nat) (d : doc) (k : nat), In k (boundary_shifts nb t d) ->
+  exists i l, nth_error d i = Some l /\ (nb = true -> blank_line l = false) /\ S i <= t /\ k = t - S i.
+Proof. exact boundary_shifts_only_lemma. Qed.
+Print Assumptions c08_boundary_shifts_only.
+
+(* and the line is what regal's line table of the shifted text holds on row t *)
+Theorem c08_boundary_shift_moves_the_line :
+  forall (nb : bool) (t : nat) (x : ldoc) (i : nat) (l : str),
+  l_lines x <> [] -> clean_doc (l_lines x) = true ->
+  nth_error (l_lines x) i = Some l -> (nb = true -> blank_line l = false) -> S i <= t ->
+  exists k, In k (boundary_shifts nb t (l_lines x)) /\
+            nth_error (regal_lines (text_of (apply_ops [OBlankTop k] x))) (t - 1) = Some l.
+Proof. exact boundary_shift_line_lemma. Qed.
+Print Assumptions c08_boundary_shift_moves_the_line.
+
 (* ---------------------------------------------------------------- (b) the docs table *)
 
 Theorem c08_every_rule_has_a_docs_page :
@@ -143,6 +172,15 @@ Example c08_nonvacuous_commute :
   commutable (OAppend ex_extra) (OAppend ex_extra) = false /\
   apply_ops [OAppend ex_extra; OCrlf; OBlankPkg 3] (mk_ldoc ex_doc EolLF)
   = apply_ops [OBlankPkg 3; OAppend ex_extra; OCrlf] (mk_ldoc ex_doc EolLF).
+Proof. repeat split; vm_compute; reflexivity. Qed.
+
+(* ex_doc has 4 rows: rows 1..4 go to row 9 by shifts 8, 7, 6, 5; without the blank rows 2 and 4 only 8 and 6;
+   shift 6 puts the rule (row 3) on row 9 and the row after it on row 10 *)
+Example c08_nonvacuous_boundary_shifts :
+  boundary_shifts false 9 ex_doc = [8; 7; 6; 5] /\ boundary_shifts true 9 ex_doc = [8; 6] /\
+  boundary_shifts false 2 ex_doc = [1; 0] /\
+  S (ops_index [OBlankTop 6] (mk_ldoc ex_doc EolLF) 2) = 9 /\
+  nth_error (regal_lines (text_of (apply_ops [OBlankTop 6] (mk_ldoc ex_doc EolLF)))) 8 = nth_error ex_doc 2.
 Proof. repeat split; vm_compute; reflexivity. Qed.
 
 Example c08_nonvacuous_table :
